@@ -134,28 +134,6 @@ theorem addEdge_inv {g : SAG} {s : AG} (h : Inv g s) (a b o : Nat) (hok : EdgeOK
     rw [hn] at hm
     exact h.nodes n hm
 
-theorem mem_withIdx {α} (l : List α) (k : Nat) (a : α) : (k, a) ∈ withIdx l ↔ l[k]? = some a := by
-  unfold withIdx
-  simp only [List.mem_map, Prod.mk.injEq]
-  constructor
-  · rintro ⟨⟨x, i⟩, hm, rfl, rfl⟩
-    exact List.mem_zipIdx_iff_getElem?.1 hm
-  · intro h
-    exact ⟨(a, k), List.mem_zipIdx_iff_getElem?.2 h, rfl, rfl⟩
-
-theorem withIdx_map_map {α β γ} (l : List α) (F : Nat × α → β) (G : β → γ) (H : α → γ) (hF : ∀ k a, G (F (k, a)) = H a) :
-    ((withIdx l).map F).map G = l.map H := by
-  unfold withIdx
-  rw [List.map_map, List.map_map]
-  have : ((G ∘ F) ∘ fun p : α × Nat => (p.2, p.1)) = H ∘ Prod.fst := by
-    funext p; simp [hF]
-  rw [this, ← List.map_map, List.zipIdx_map_fst]
-
-theorem mem_withIdx_map {α β} (l : List α) (F : Nat × α → β) (b : β) (h : b ∈ (withIdx l).map F) : ∃ k a, l[k]? = some a ∧ b = F (k, a) := by
-  simp only [List.mem_map] at h
-  obtain ⟨⟨k, a⟩, hm, rfl⟩ := h
-  exact ⟨k, a, (mem_withIdx l k a).1 hm, rfl⟩
-
 theorem NodeOK_clear (g : SAG) (n : GNode) : NodeOK g (clearNode n) := by
   refine ⟨?_, ?_, ?_⟩ <;> intro e he <;> simp [clearNode] at he
 
